@@ -177,6 +177,21 @@ def put (v : View) (x0 y0 w h : Int) : R Ops :=
   else if ¬ v.contains x1 y1 then .error ifc
   else .ok [⟨.slice (some y0) (some (y1 + 1)), .slice (some x0) (some (x1 + 1))⟩]
 
+/-- size (columns, rows) of the matrix range that `graph_view[yi, xi] = sprite` assigns to.  `ByteMatrix.__setitem__`
+    slice-assigns each sprite row to that column range, so a range narrower than the sprite makes the pixel row
+    grow (everything right of it is shifted) - the sprite must be exactly as large as its target. -/
+def targetSize (v : View) (op : SetItem) : Int × Int :=
+  let r := v.writeRect op.yi op.xi
+  (r.1.2 - r.1.1, r.2.2 - r.2.1)
+
+/-- `put_` with the fit test made on a size `(wc, hc)` other than the size `(w, h)` of the sprite that is then
+    written (not the code of /repo - a seeded change tested the size record of the array, which in Tandy/PCjr
+    SCREEN 6 holds half the width of the sprite that `unpack` builds) -/
+def putChecked (v : View) (x0 y0 wc hc w h : Int) : R Ops :=
+  if ¬ v.contains x0 y0 then .error ifc
+  else if ¬ v.contains (x0 + wc - 1) (y0 + hc - 1) then .error ifc
+  else .ok [⟨.slice (some y0) (some (y0 + h - 1 + 1)), .slice (some x0) (some (x0 + w - 1 + 1))⟩]
+
 /-! ### VIEW -/
 
 /-- `view_` + `_set_view` with explicit coordinates on a `W × H` mode: range checks, then fill and
